@@ -16,7 +16,11 @@ CONSTANTS Conns, MaxReq, Closers,
 \* upgrade_close: an upgrade request that also carries the "close" connection option (the connection is not going
 \* to be an HTTP connection any more anyway): the tunnel is set up and reported like any other
 Kinds == {"ok", "refused", "upstream_error", "connect_tunnel", "connect_rejected", "upgrade", "upgrade_close", "mitm_connect",
-          "abort_upload", "abort_download", "connect_write_error"}
+          "abort_upload", "abort_download", "connect_write_error",
+          \* a CONNECT that asks the proxy to speak TLS to the target itself (X-Martian-Terminate-Tls) and whose handshake
+          \* fails after the connection was dialled: an error response, and a dialled connection to give back
+          \* (with the default configuration the handshake cannot succeed: no server name is set - DESIGN.md 14.4)
+          "connect_terminate_tls_fail"}
 Tunnelled(k) == k \in {"connect_tunnel", "upgrade", "upgrade_close"}
 
 VARIABLES pc, kind, nreq, reports,        \* per connection: phase, current exchange kind, requests read, reports for the current request
